@@ -28,6 +28,7 @@ def run(chk):
     chk.explanation += " After the defect hunt: sending the Close frame and draining are under the close timeout; the peer's CLOSE is recognised by `is not None`."
     for sp in SPECS:
         one(chk, repo, sp)
+        abnormal(chk, repo, sp)
     # no data frame follows the close frame: decided on the writer (shared with C11)
     from rules import C11
 
@@ -42,8 +43,12 @@ def one(chk, repo, sp):
     g = cfg_of(close.node)
     tag = f"[{side}]"
 
+    # helpers of the class that close the transport first thing (e.g. _abort(): abort the socket, then close the response)
+    helpers = tuple(f"self.{name}()" for name, m in cls.methods.items() if name not in ("close", "receive")
+                    and any(isinstance(st, ast.Expr) and any(M.match(M.compile_pat(p), st.value) is not None for p in sp["tclose"]) for st in m.node.body))
+
     def tclose(n):
-        return any(K.node_has(n, p) for p in sp["tclose"])
+        return any(K.node_has(n, p) for p in tuple(sp["tclose"]) + helpers)
 
     # ---- once -----------------------------------------------------------------------------------------
     sends = []
@@ -162,7 +167,7 @@ def one(chk, repo, sp):
         if a in creads or "_close_wait" in txt:
             continue
         scoped = any(any(M.match(M.compile_pat("async_timeout.timeout($T)"), it.context_expr) is not None for it in w.items) for w in prog.enclosing(a, (ast.AsyncWith,)))
-        blocking = ("drain(" in txt) or (sp["side"] == "server" and "self._writer.close(" in txt)
+        blocking = ("drain(" in txt) or ("self._writer.close(" in txt)  # send_frame() waits in the drain helper once the output limit is reached
         if not blocking:
             continue
         if scoped:
@@ -191,7 +196,7 @@ def one(chk, repo, sp):
                     chk.ok("C13.codes", h, f"{tag} close(): `except {'/'.join(types)}` reports 1006")
                 else:
                     chk.violation("C13.codes", h, f"except {'/'.join(types)}", "WSCloseCode.ABNORMAL_CLOSURE", f"{tag} an abnormal end of close() does not report close code 1006")
-    chk.expect_count("C13.codes", nh, 4, f"error handlers in {cn}.close")
+    chk.expect_count("C13.codes", nh, 2, f"error handlers in {cn}.close")
     cm = [i for i in ast.walk(close.node) if isinstance(i, ast.If) and norm.raw(i.test) == "msg.type is WSMsgType.CLOSE"]
     if cm and "msg.data" in " ".join(norm.raw(s) for s in cm[0].body) and any(isinstance(s, ast.Return) for s in cm[0].body):
         chk.ok("C13.codes", cm[0], f"{tag} close(): a clean handshake reports the peer's code (msg.data)")
@@ -275,3 +280,62 @@ def one(chk, repo, sp):
                 chk.ok("C13.receive", h, f"{tag} receive(): `except {'/'.join(types)}` ends the session (close / closed) before returning a terminal message")
             else:
                 chk.violation("C13.receive", h, f"except {'/'.join(types)}", "close()/_set_closed() or re-raise", f"{tag} receive() swallows an error without ending the session: the next receive() blocks on a dead connection")
+
+
+def abnormal(chk, repo, sp):
+    """An abnormal end (1006) has nothing more to say to the peer: the transport is aborted, not closed gracefully - a graceful close waits
+    until the write buffer is flushed, which a peer that stopped reading never allows (the socket stays open, a sender blocked in drain and
+    a pending receive() are never released).  Rules written after the second defect hunt (F143-F144)."""
+    mod, cn, side = sp["mod"], sp["cls"], sp["side"]
+    cls = repo.cls(mod, cn)
+    tag = f"[{side}]"
+
+    def aborts(node, depth=2) -> bool:
+        for c in ast.walk(node):
+            if isinstance(c, ast.Call) and isinstance(c.func, ast.Attribute):
+                if c.func.attr == "abort":
+                    return True
+                if depth and isinstance(c.func.value, ast.Name) and c.func.value.id == "self" and c.func.attr in cls.methods and c.func.attr not in ("close", "receive"):
+                    if aborts(cls.methods[c.func.attr].node, depth - 1):
+                        return True
+        return False
+
+    n = 0
+    for name, m in cls.methods.items():
+        for a in ast.walk(m.node):
+            if not (isinstance(a, ast.Assign) and norm.raw(a.targets[0]) == "self._close_code" and "ABNORMAL_CLOSURE" in norm.raw(a.value)):
+                continue
+            n += 1
+            blk = PC._block_of(a) or []
+            rest = blk[blk.index(a) + 1:] if a in blk else []
+            lost = any(isinstance(h_, ast.ExceptHandler) and {"ClientError", "ConnectionError", "ClientConnectionError", "ServerDisconnectedError"} & set(PC.handler_types(h_)) for h_ in prog.enclosing(a, (ast.ExceptHandler,)))
+            if lost:
+                chk.ok("C13.abort", a, f"{tag} {name}(): 1006 after the connection was lost (nothing left to abort)")
+            elif any(isinstance(c, ast.Call) and norm.raw(c.func) == "self.close" for x in rest for c in ast.walk(x)):
+                chk.ok("C13.abort", a, f"{tag} {name}(): the code is provisional, close() runs next and decides how the transport ends")
+            elif any(aborts(x) for x in rest):
+                chk.ok("C13.abort", a, f"{tag} {name}(): reporting 1006 aborts the transport")
+            else:
+                chk.violation("C13.abort", a, K.short(a), "transport.abort() after the abnormal-closure code is set",
+                              f"{tag} {name}() reports 1006 and closes the transport gracefully: with data still buffered for a peer that stopped reading the socket stays open (also after session.close() / the handler returned), a sender blocked in drain and a pending receive() are never released")
+    # the server funnels the code through one helper that takes it as an argument
+    hs = cls.methods.get("_set_code_close_transport")
+    if hs is not None:
+        n += 1
+        ab = [c for c in ast.walk(hs.node) if isinstance(c, ast.Call) and isinstance(c.func, ast.Attribute) and c.func.attr == "abort"]
+        if ab and any("ABNORMAL_CLOSURE" in l.text for c in PC.pc(ab[0], raw=True) for l in c):
+            chk.ok("C13.abort", ab[0], f"{tag} _set_code_close_transport(): the transport is aborted when the code is 1006")
+        else:
+            chk.violation("C13.abort", hs, "_set_code_close_transport(code)", "if code == WSCloseCode.ABNORMAL_CLOSURE: transport.abort()",
+                          f"{tag} an abnormal closure (close timeout against a non-reading peer, pong timeout) closes the transport gracefully: transport.close() drops the reader and waits for megabytes of buffered data that never drain - receive() is never woken, a sender blocked in drain stays blocked, the fd stays open")
+        # and a late EOF does not rewrite the reported code
+        rc = cls.methods["receive"]
+        for h in [h for t in ast.walk(rc.node) if isinstance(t, ast.Try) for h in t.handlers if "EofStream" in PC.handler_types(h)]:
+            oks = [a for a in ast.walk(h) if isinstance(a, ast.Assign) and norm.raw(a.targets[0]) == "self._close_code"]
+            for a in oks:
+                if PC.has_lit(PC.pc(a, stop=h, raw=True), [("self._closed", False), ("not self._closed", True), ("self._close_code is None", True)], True) is not None:
+                    chk.ok("C13.codes", a, f"{tag} receive(): the end of the stream reports 1000 only if close() has not reported a code already")
+                else:
+                    chk.violation("C13.codes", a, K.short(a), "if not self._closed: self._close_code = WSCloseCode.OK",
+                                  f"{tag} receive(): when the peer finally leaves after close() timed out, the EOF branch rewrites the reported close code from 1006 to 1000")
+    chk.expect_count("C13.abort", n, 1, f"abnormal-closure sites in {cn}")
